@@ -98,7 +98,10 @@ def step (s : S) (line : String) : S × String :=
         -- force the next pre-tempering state word (generator states that seeds make astronomically rare)
         let r1 := if r.st.mti ≥ 624 then (r.next).2 else r
         let raw := UInt32.ofNat ((argNat? ws "raw").getD 0)
-        fin "ok" { r1 with st := { r1.st with mt := r1.st.mt.setIfInBounds r1.st.mti raw } }
+        -- n > 1 (round 6b): the next n words, as far as the current table reaches
+        let n := (argNat? ws "n").getD 1
+        let mt := (List.range n).foldl (fun (mt : Array UInt32) j => if r1.st.mti + j < 624 then mt.setIfInBounds (r1.st.mti + j) raw else mt) r1.st.mt
+        fin "ok" { r1 with st := { r1.st with mt := mt } }
       else if op == "fplaws" then
         -- support-only monitor of the trusted binary64 facts (FloatLaws.lean): replay on a copy of the generator, state NOT advanced
         let ofop := (arg? ws "of").getD ""
